@@ -605,7 +605,7 @@ func ufCases(c *Ctx, n int, hostile bool) []json.RawMessage {
 }
 
 func checkC13(c *Ctx) {
-	c.rule = "MC: over all well-typed trees within bounds (every type at the top level and as element/key/value type of the first container level, reduced alphabet below, 0..2 elements, two fields after one another inside a struct) ToTree(ToBytes(t)) = t, ToBytes(ToTree(b)) = b, TreeLen = length, tags only where meaningful. TRACE: random field sequences from the typed value generator -> ConvertUnknownFields / GetUnknownFields -> WriteUnknownFields / UnknownFieldsLength, random Go trees -> write -> convert, and trees nested 1..78 levels deep in pure and mixed chains, wide structs (0..257 fields in flight around every power of two, a nested struct of 50..150 fields behind them, converted twice in a row); TLC compares every tree field by field (ID, Type, KeyType, ValType, Value) with ToTree and every output with ToBytes; truncated and perturbed inputs are accepted exactly when the reference accepts them; trees with one node of a non-Thrift type at any position are refused by the length function and the writer, values without unknown fields by GetUnknownFields (an error, never a panic). BIG COLLECTIONS (Go monitor; the expectation is computed in Go from the data that was encoded, because TLC's map comparison is quadratic): unknown-field maps / lists / sets of 255..131073 entries, structs and field sequences to 32767 fields: every node, length and write-back. GetUnknownFields is called on every holder shape in turn: a struct declaring the field, by pointer and by value, embedded by value / by pointer / two levels deep in a wrapper. Lists and maps up to 2^21 slots."
+	c.rule = "MC: over all well-typed trees within bounds (every type at the top level and as element/key/value type of the first container level, reduced alphabet below, 0..2 elements, two fields after one another inside a struct) ToTree(ToBytes(t)) = t, ToBytes(ToTree(b)) = b, TreeLen = length, tags only where meaningful. TRACE: random field sequences from the typed value generator -> ConvertUnknownFields / GetUnknownFields -> WriteUnknownFields / UnknownFieldsLength, random Go trees -> write -> convert, and trees nested 1..78 levels deep in pure and mixed chains, wide structs (0..257 fields in flight around every power of two, a nested struct of 50..150 fields behind them, converted twice in a row); TLC compares every tree field by field (ID, Type, KeyType, ValType, Value) with ToTree and every output with ToBytes; truncated and perturbed inputs are accepted exactly when the reference accepts them; trees with one node of a non-Thrift type at any position are refused by the length function and the writer, values without unknown fields by GetUnknownFields (an error, never a panic). BIG COLLECTIONS (Go monitor; the expectation is computed in Go from the data that was encoded, because TLC's map comparison is quadratic): unknown-field maps / lists / sets of 255..131073 entries, structs and field sequences to 32767 fields: every node, length and write-back. GetUnknownFields is called on every holder shape in turn: a struct declaring the field, by pointer and by value, embedded by value / by pointer / two levels deep in a wrapper. Lists and maps up to 2^21 slots. Hand-built trees sharing sub-trees between nodes, written twice."
 	c.MC("MC_UnknownFields.tla", "MC_UnknownFields.cfg", 4)
 	cases := ufCases(c, c.Pick(1500, 30000), false)
 	// truncated / perturbed inputs: accepted exactly when the reference accepts them (a converter that swallows a
